@@ -85,6 +85,11 @@ CHECKS = {
    technique="differential property-based testing (proptest): generated git command sequences run against real git and through the git-ai wrapper in twin sandboxes; exit status, stdout and a repository-state digest compared after every command",
    text="Twin sandboxes (real git / wrapper) with aliases, a bare remote and a generated subset of user hooks execute the same 5-25 steps: git command lines from ~170 templates (porcelain, plumbing, global options, aliases incl. recursive and shell, remote operations, invalid invocations) and human/agent edits (agent checkpoints only behind the wrapper). After every command exit status, stdout (byte-wise) and the digest of HEAD, refs outside git-ai's namespaces, index, status, working-tree bytes, stash, in-progress state, user-hook log, remote refs, local config and hook directory must be equal.",
    note="stderr is not compared (outside the property); no pty, so tty-only output never occurs; commands that enumerate every ref/object, `ls-remote`, and blame of uncommitted lines (prints the time of day) are not generated."),
+ "C07": dict(
+   level="fault_enumeration", design="DESIGN.md §2 C07",
+   technique="fault injection driven by property-based generation: a git stand-in (git_path) fails / returns garbage / kills the wrapper at the k-th internal git call (sampled in quick, every k in thorough) and generated corruptions of .git/ai; differential against a plain-git twin",
+   text="For generated pre-states and 13 hooked target commands the number N of internal git calls is learnt, then the command is re-run from byte copies of the pre-state once per (k, mode) fault - quick: 8-12 sampled k, thorough: all k x {fail, garbage, kill} - and once per generated corruption of git-ai's private files. Each run must be transparent w.r.t. a plain-git twin (exit, stdout, state digest) or a clean refusal (git never started, non-zero, diagnostic, state untouched); a fixed un-faulted follow-up must behave like the twin's, all notes must still parse and blame must not report as AI anything the un-faulted run does not.",
+   note="Crash points are git-subprocess boundaries plus file-level corruption of .git/ai, not arbitrary instructions. The stand-in distinguishes the proxied call by GITAI_SKIP_MANAGED_HOOKS=1. Remote operations (push/fetch/pull) are not among the targets. A later commit that refuses cleanly while the corruption persists is accepted (counted)."),
 }
 
 NOT_YET = "check not built yet (work in progress; see DESIGN.md section 2 for the plan)"
